@@ -229,15 +229,35 @@ namespace igris
 
         template <typename... Args> void emplace_back(Args &&... args)
         {
-            reserve(m_size + 1);
-            igris::constructor(m_data + m_size, std::forward<Args>(args)...);
+            if (m_size + 1 > m_capacity)
+            {
+                // the arguments may refer to an element of this vector, which
+                // the reallocation is about to move away: build the value first
+                T value(std::forward<Args>(args)...);
+                reserve(m_size + 1);
+                igris::move_constructor(m_data + m_size, std::move(value));
+            }
+            else
+            {
+                igris::constructor(m_data + m_size, std::forward<Args>(args)...);
+            }
             m_size++;
         }
 
         void push_back(const T &ref)
         {
-            reserve(m_size + 1);
-            igris::constructor(m_data + m_size, ref);
+            if (m_size + 1 > m_capacity)
+            {
+                // ref may be an element of this vector, which the reallocation
+                // is about to move away: copy it first
+                T value(ref);
+                reserve(m_size + 1);
+                igris::move_constructor(m_data + m_size, std::move(value));
+            }
+            else
+            {
+                igris::constructor(m_data + m_size, ref);
+            }
             m_size++;
         }
 
